@@ -28,13 +28,23 @@ def reference(s):
         return ("float", float("inf"))
     if s == "-Inf":
         return ("float", float("-inf"))
-    if re.fullmatch(r"-?(NaN|Inf)[_,]+", s):
+    if re.search(r"NaN|Inf", s) and re.search(r"[_,]", s):
         # "trailing separators" + "NaN/Inf literals": the docs do not say whether the two rules combine
         return ("unjudged",)
     if re.fullmatch(r"[+-]?(nan|inf|infinity)", s, re.I) or re.search(r"(nan|inf)", s, re.I):
         # other spellings/capitalisations: "case-sensitive"; signs other than -Inf are not documented
         if s in ("+Inf", "+NaN", "-NaN") or re.search(r"[0-9]", s):
             return ("unjudged",)
+        if s[-1:] in ("j", "J"):
+            # "complex literals as understood by the constructor for complex" + case-sensitive NaN/Inf: NaNj, -Infj, NaN+Infj
+            if re.search(r"infinity", s, re.I):
+                return ("unjudged",)
+            if all(m.group(0) in ("NaN", "Inf") for m in re.finditer(r"nan|inf", s, re.I)):
+                try:
+                    return ("complex", complex(s))
+                except ValueError:
+                    return ("not-number",)
+            return ("not-number",)
         return ("not-number",)
     body = s[1:] if s[:1] in "+-" else s
     if not s.isascii():
@@ -108,6 +118,8 @@ def _num_ok(s):
             return False
         if a[0] == "float" and math.isnan(a[1]) and math.isnan(b[1]):
             return True
+        if a[0] == "complex" and (a[1] != a[1] or b[1] != b[1]):
+            return repr(a[1]) == repr(b[1])   # a nan part: compare the printed parts
         return a[1] == b[1] and repr(a[1]) == repr(b[1])
 
     pv = python_literal(s)
